@@ -6,6 +6,16 @@ checks = {
  "C01": ("A", "explicit-state BFS over operation histories vs. a Go reference list, on the real code",
          "Every reachable stack state up to the length bound (all kinds x LIFO/FIFO x capacity x index options) is expanded with every operation of the alphabet; after each transition all content observations (Len, IsEmpty, Index over [-Len-2,Len+2], Front, Back, Cap/Avail/IsFull, return values) are compared with the reference list. Exhaustive to the fix-point of the bounded domain, which is what a history-quantified property needs and a fixed example cannot give.",
          "Trusted: the reference list model (listmodel.go), the token-renaming symmetry argument, VerifDump as the state key. Element values are fresh tokens and nil; lengths up to the stated bound.", "§3 C01"),
+
+ "C03": ("A", "explicit-state BFS over growth/shrink histories around the capacity boundary, on the real code",
+         "Every state with Len<=k for k=1..3 (quick) / 1..5 (thorough), every kind, LIFO/FIFO, is expanded with Push batches of 1-3, Insert, Transfer-into (sources of length 0-3), Marshal-into, Pop, Remove and Reset; Len<=k, Cap, Avail, IsFull and the 'earliest offered values kept in order' content are checked after every transition; the no-capacity family (no argument, 0, -1) is explored the same way. Fix-point reached, so every history that fills, drains and refills the stack is covered.",
+         "Trusted: reference list with capacity (listmodel.go); Transfer modelled all-or-nothing on free slots as C15 states.", "§3 C03"),
+ "C13": ("A", "explicit-state BFS over push batches and option flips vs. a reference filter, on the real code",
+         "State = element classes x no-nesting flag, for Stacks of every kind and for Conditions; every push batch (length <=2/3) over {primitive, nil, Stack, alias with/without String, pointer to alias, pointer to Stack, Condition, Condition holding a Stack} and every set/clear/toggle is applied in every reachable state; stored content, CanNest and IsNesting are compared with the reference after each transition.",
+         "Trusted: the reference filter (a Stack-like value is a Stack, a declared alias or a non-nil pointer to either).", "§3 C13"),
+ "C15": ("B", "exhaustive enumeration of (source, destination, capacity, destination form) with an all-or-nothing oracle",
+         "Complete product of source length/nil pattern/FIFO/capacity x destination length/nil pattern/capacity none..max x 15 destination forms (native, aliases, pointers, read-only, zero, freed, nil pointers, foreign values); raw dumps of source and destination are compared before/after.",
+         "Trusted: VerifDump for 'unchanged'; lengths up to 3 (quick) / 4 (thorough).", "§3 C15"),
 }
 not_built = {f"C{i:02d}" for i in range(1,21)} - set(checks)
 m = {
